@@ -89,7 +89,7 @@ def history_c01(r, quick):
 def history_c03(r, quick):
     p0 = vprogs.random_prog(r, nmem=r.choice([2, 3, 4]), nplain=r.choice([1, 2]), nvar=2, hidden_p=0.0,
                             forms=("bare", "bare", "attr", "alias", "wrapped", "wrapped2"), init_p=0.4, twins_p=0.5, late_p=0.5,
-                            shapes_p=0.5, factory_p=0.6, lambdas_p=0.6)
+                            shapes_p=0.5, factory_p=0.6, lambdas_p=0.6, setdict_p=0.6)
     names = [n["name"] for n in p0["nodes"] if n["kind"] in ("mem", "plain")]
     mems = [n for n in names if n.startswith("m")]
     steps = []
@@ -99,10 +99,12 @@ def history_c03(r, quick):
         steps.append({"do": "proc", "hashseed": str([0, 1, 2, 3, 77, 12345][i % 6] if i else 0), "order": order})
         q = mems[:]
         r.shuffle(q)
+        # (in some processes the first use of a function goes through a modifier)
+        how = r.choice(["plain", "plain", "clone", "partial"])
         if i % 2:
-            steps.append({"do": "call", "name": "m1"})
-        for n in q:
-            steps.append({"do": "query", "name": n})
+            steps.append({"do": "call", "name": "m1", "how": how})
+        for j, n in enumerate(q):
+            steps.append({"do": "query", "name": n, "how": how if (j == 0 and not i % 2) else "plain"})
         if not i % 2:
             steps.append({"do": "call", "name": "m1"})
     return {"prog": p0, "steps": steps}
